@@ -3,7 +3,7 @@
 // Contracts for the deductive verifier in /verif (comment-only: adds no declarations).
 package main
 
-//@ use strings nethttp fmt oauth2
+//@ use strings nethttp fmt oauth2 neturl
 
 // ---- C17: post-login redirects stay on the keymaster origin ------------------------------------
 //@ pure func noControlBytes(s string) bool = (forallIdx j int :: 0 <= j && j < len(s) ==> s[j] >= 0x20 && s[j] != 0x7f)
@@ -36,4 +36,35 @@ package main
 //@ func (*RuntimeState).oauth2DoRedirectoToProviderHandler
 //@   atcall net/http.Redirect overrides C17.redirect (w2 http.ResponseWriter, r2 *http.Request, url string, code int) :: configuredIdPURL(url) #C17.configured-idp @C17
 //@ func (*RuntimeState).idpOpenIDCAuthorizationHandler
-//@   atcall net/http.Redirect overrides C17.redirect (w2 http.ResponseWriter, r2 *http.Request, url string, code int) :: true #C17.oidc-client-redirect-see-C13 @C17
+//@   atcall net/http.Redirect overrides C17.redirect (w2 http.ResponseWriter, r2 *http.Request, url string, code int) :: strPrefixOf(ghostApprovedRedirect + "?code=", url) #C13.redirect-approved @C13,C17
+
+// ---- C13: authorization codes are redirected only to the client's own https hosts ---------------------------
+// "one of the configured domains or a subdomain of one" (a configured leading dot is tolerated)
+//@ pure func bareDomain(d string) string = strTrimPrefix(d, ".")
+//@ pure func hostOK(h string, d string) bool = bareDomain(d) != "" && (h == bareDomain(d) || strSuffixOf("." + bareDomain(d), h))
+// the redirect target most recently approved by CanRedirectToURL in this request (ghost)
+//@ ghost var ghostApprovedRedirect string
+//@ func (*OpenIDConnectClientConfig).CanRedirectToURL
+//@   results ok, u, err
+//@   ghostset ghostApprovedRedirect string = redirectUrl if ok
+//@   modifies nothing
+//@   ensures ok ==> err == nil && u != nil && parsedFrom(u, redirectUrl)                                        #C13.parsed @C13
+//@   ensures ok ==> u.Scheme == "https"                                                                        #C13.scheme @C13
+//@   ensures ok ==> u.RawQuery == ""                                                                           #C13.query @C13
+//@   ensures ok ==> !strContains(u.Path, "..")                                                                 #C13.dotdot @C13
+//@   ensures ok && len(client.AllowedRedirectDomains) > 0 ==> (exists i int :: 0 <= i && i < len(client.AllowedRedirectDomains) && hostOK(hostnameOf(u.Host), client.AllowedRedirectDomains[i]))  #C13.host @C13
+//@   ensures ok && len(client.AllowedRedirectURLRE) > 0 ==> (exists i int :: 0 <= i && i < len(client.AllowedRedirectURLRE) && regexMatch(client.AllowedRedirectURLRE[i], redirectUrl))  #C13.pattern @C13
+//@   ensures len(client.AllowedRedirectDomains) == 0 && len(client.AllowedRedirectURLRE) == 0 ==> !ok           #C13.unconfigured @C13
+//@   observe host string = hostnameOf(urlHostOf(redirectUrl))
+//@   observe domain0 string = client.AllowedRedirectDomains[0]
+//@   observe domain1 string = client.AllowedRedirectDomains[1]
+//@ func (*RuntimeState).idpOpenIDCGenericIsCorsOriginAllowed
+//@   results ok, err
+//@   ensures ok ==> urlSchemeOf(origin) == "https"    #C13.cors-generic-scheme @C13
+//@ func (*OpenIDConnectClientConfig).CorsOriginAllowed
+//@   results ok, err
+//@   ensures ok ==> urlSchemeOf(origin) == "https"    #C13.cors-scheme @C13
+//@   observe host string = hostnameOf(urlHostOf(origin))
+//@   observe domain0 string = client.AllowedRedirectDomains[0]
+//@   observe domain1 string = client.AllowedRedirectDomains[1]
+//@   ensures ok ==> (exists i int :: 0 <= i && i < len(client.AllowedRedirectDomains) && hostOK(hostnameOf(urlHostOf(origin)), client.AllowedRedirectDomains[i]))  #C13.cors-host @C13
